@@ -120,7 +120,13 @@ func c19Streams(seed int64) []*Stream {
 			append(Packetize(PESUnit(0x101, 0xc0, pesPayload(24, 250, seed), 4, true), nil, &ccs[3], false), Packetize(PESUnit(0x101, 0xc0, pesPayload(25, 30, seed), 5, true), nil, &ccs[3], false)...),
 			Packetize(PSIUnit(0x11, 0, [][]byte{SecSDT(sdt, ref.SecHdr{CNI: true})}, nil), nil, &ccs[4], true),
 		}
-		ss = append(ss, BuildStream("mixed-13", lists, roundRobin(lists), nil))
+		null := func(fill byte, cc uint8) *ref.Pkt {
+			return &ref.Pkt{PID: 0x1fff, HasPL: true, CC: cc, Payload: bytes.Repeat([]byte{fill}, 184)}
+		}
+		// null packets: data bytes may have any value; counters consecutive so that the accumulator's
+		// continuity rule keeps them in one group (the counter of null packets is undefined in ISO)
+		lists = append(lists, []*ref.Pkt{null(0xff, 0), null(0x00, 1)})
+		ss = append(ss, BuildStream("mixed-15", lists, roundRobin(lists), nil))
 	}
 	return ss
 }
